@@ -83,6 +83,19 @@ def _work(job):
                                 'failed_clauses': sorted({o['clause'] for o in s['failed']}),
                                 'witness': (s['failed'][0].get('replay') or {}).get('inputs') if killed else None,
                                 'error': s['error'], 'unsupported': s['unsupported'][:2], 'secs': s['secs']}
+        if kind == 'lean':
+            import subprocess, re
+            path = os.path.join(ROOT, name)
+            src = open(path).read()
+            bad = [w for w in ('sorry', 'admit', 'axiom ') if re.search(r'\b' + w.strip() + r'\b', re.sub(r'/-.*?-/', '', src, flags=re.S))]
+            t0 = time.time()
+            p = subprocess.run(['lean', path], capture_output=True, text=True, timeout=1200)
+            n = len(re.findall(r'^theorem ', src, flags=re.M))
+            ok = p.returncode == 0 and not bad and 'error' not in p.stdout
+            return kind, name, {'unit': 'lean:' + name, 'paths': 0, 'obligations': n, 'discharged': n if ok else 0, 'failed': [],
+                                'undecided': [] if ok else [{'id': 'lean:' + name, 'reason': (p.stdout + p.stderr)[-400:] + (' forbidden: %s' % bad if bad else '')}],
+                                'unsupported': [], 'secs': round(time.time() - t0, 2), 'solver_secs': round(time.time() - t0, 2), 'error': None, 'crosscheck': None,
+                                'canaries': [], 'src_hash': None, 'by_backend': {'lean4-mathlib': n} if ok else {}, 'contracts_used': [], 'lemmas_used': [], 'clauses': {}}
         if kind == 'bounded':
             from pyvc import bounded
             fn = bounded.REGISTRY[name]
@@ -98,7 +111,8 @@ def _child(job, conn):
     try:
         import resource
         lim = int(os.environ.get('PYVC_JOB_MEM_GB', '8')) << 30
-        resource.setrlimit(resource.RLIMIT_AS, (lim, lim))
+        if job[0] != 'lean':          # Lean reserves a large virtual address space
+            resource.setrlimit(resource.RLIMIT_AS, (lim, lim))
     except Exception:
         pass
     try:
@@ -112,8 +126,8 @@ def _child(job, conn):
         conn.close()
 
 
-JOB_TIMEOUT = {'quick': {'unit': 420, 'lemma': 240, 'canary': 300, 'bounded': 600},
-               'thorough': {'unit': 1500, 'lemma': 600, 'canary': 900, 'bounded': 1800}}
+JOB_TIMEOUT = {'quick': {'unit': 600, 'lemma': 240, 'canary': 400, 'bounded': 600, 'lean': 900},
+               'thorough': {'unit': 1500, 'lemma': 600, 'canary': 900, 'bounded': 1800, 'lean': 1500}}
 
 
 def run_jobs(jobs, njobs, tier):
@@ -273,11 +287,20 @@ def check(args):
         for kind, name, r in results:
             if isinstance(r, dict):
                 used |= set(r.get('lemmas_used', []))
+        axioms_used = sorted(l_ for l_ in used if l_ in reg.axioms)
         todo = sorted(l_ for l_ in used if l_ not in done and l_ in reg.lemmas)
         if not todo:
             break
         done |= set(todo)
         results += run_jobs([('lemma', l_, opts) for l_ in todo], args.jobs, tier)
+    used_all = set()
+    for kind, name, r in results:
+        if isinstance(r, dict):
+            used_all |= set(r.get('lemmas_used', []))
+    lean_files = sorted({reg.axioms[a_].lean for a_ in used_all if a_ in reg.axioms and reg.axioms[a_].lean})
+    if lean_files:
+        results += run_jobs([('lean', lf, opts) for lf in lean_files], args.jobs, tier)
+    assumed = list(assumed) + ['axiom:' + a_ for a_ in sorted(used_all) if a_ in reg.axioms]
     return report.finish(pid, tier, seed, results, reg, assumed, time.time() - t0, load_known(), match_known)
 
 
